@@ -80,6 +80,8 @@ package helpers
 //@   modifies n.Attr, elems(n.Attr)
 //@ func RemoveAttr(n, key)
 //@   modifies n.Attr
+//@   ensures C10+C14.remove.fresh: len(n.Attr) == 0 || fresh(n.Attr)
+//@   loop 0 invariant C10.remove.fresh.loop: len(attrs) == 0 || fresh(attrs)
 
 //@ func FormatAttr(val) (r)
 //@   trusted
